@@ -25,6 +25,8 @@ class Page(html.parser.HTMLParser):
         d = dict(attrs)
         if 'id' in d:
             self.ids.append(d['id'])
+        elif tag == 'a' and d.get('name'):
+            self.ids.append(d['name'])          # a named anchor is a fragment target too
         if tag == 'a' and 'href' in d:
             self.hrefs.append(d['href'])
         if tag in ('script', 'style', 'title', 'head'):
